@@ -59,6 +59,9 @@ def build(e, leaves):
     if tag == "getitem":
         _, a, idx = e
         return build(a, leaves)[build(idx, leaves)]
+    if tag == "constant":
+        from funsor.constant import Constant
+        return Constant(OrderedDict((k, Bint[n]) for k, n in e[1]), build(e[2], leaves))
     if tag == "getitem_at":
         _, a, idx, off = e
         return build(a, leaves)[(slice(None),) * off + (build(idx, leaves),)]
